@@ -477,6 +477,21 @@ class _BinReader(object):
         return getattr(self.real, name)
 
 
+class _ShortRaw(io.FileIO):
+    """raw layer of a sink that accepts at most fs.short_write_max bytes per write() call and says so in its return
+    value (legal for a raw stream: a pipe, a network mount, a nearly full disk).  The buffered and text layers the shipped
+    code writes through absorb it."""
+    _fs = None
+
+    def write(self, b):
+        cap = self._fs.short_write_max
+        mv = memoryview(b)
+        if cap and len(mv) > cap:
+            self._fs.sim.probes["short_writes"] += 1
+            mv = mv[:cap]
+        return io.FileIO.write(self, mv)
+
+
 class _Writer(object):
     def __init__(self, fs, real, path):
         self.fs = fs
@@ -616,6 +631,7 @@ class SimFS(object):
         self._arrivals = 0
         self.sim = sim
         self.short_read_max = 0        # > 0: binary reads through the seam return at most that many bytes
+        self.short_write_max = 0       # > 0: the raw layer of a sink accepts at most that many bytes per call
         self.read_fault_left = -1      # n >= 0: fail when n more lines have been delivered
         self.read_errno = "EIO"
         self.read_open_fault = None    # (k, errno name): the k-th open for reading from now fails
@@ -656,7 +672,20 @@ class SimFS(object):
                 self.sim.log.add("open", "fault:" + name, mode)
                 exc = PermissionError if name == "EACCES" else OSError
                 raise exc(getattr(errno, name), "simulated " + name)
-            real = builtins.open(path, mode, *a, **k)
+            if self.short_write_max:
+                # the same stack builtins.open builds, over a raw layer that writes short
+                names = ("buffering", "encoding", "errors", "newline")
+                opts = dict(zip(names, a))
+                opts.update({n: v for n, v in k.items() if n in names})
+                raw = _ShortRaw(path, mode.replace("b", "").replace("t", ""))
+                raw._fs = self
+                if "b" in mode:
+                    real = raw if opts.get("buffering", -1) == 0 else io.BufferedWriter(raw)
+                else:
+                    real = io.TextIOWrapper(io.BufferedWriter(raw), encoding=opts.get("encoding"), errors=opts.get("errors"),
+                                            newline=opts.get("newline"))
+            else:
+                real = builtins.open(path, mode, *a, **k)
             if "a" in mode:
                 self.append_opens += 1
                 self.sim.log.add("open", "append")
